@@ -850,6 +850,8 @@ func runC15(env *Env) {
 	_, err = g.vm.Run(describePrelude)
 	Must(err)
 	g.installSeqCallbacks()
+	_, err = g.vm.Run(handlePrelude)
+	Must(err)
 	Must(g.vm.Set("sink", func(call otto.FunctionCall) otto.Value {
 		g.sunk = call.Argument(0)
 		return otto.UndefinedValue()
@@ -873,6 +875,10 @@ func runC15(env *Env) {
 	g.jsValueCase(`({valueOf:function(){throw new TypeError("t")}})`)
 	g.callSeqCase(1)
 	g.callSeqCase(2)
+	g.depthHistCase(true)
+	for sp := 0; sp < 3; sp++ {
+		g.objHandleCase(sp, sp)
+	}
 
 	for env.Count() < env.N {
 		switch k := r.Intn(20); {
@@ -896,6 +902,13 @@ func runC15(env *Env) {
 			continue
 		case k < 15:
 			g.callSeqCase(0)
+			continue
+		case k < 16:
+			if r.Intn(3) == 0 {
+				g.depthHistCase(false)
+			} else {
+				g.objHandleCase(r.Intn(3), r.Intn(8))
+			}
 			continue
 		}
 		s, simple := g.scalar()
@@ -2087,6 +2100,9 @@ func jvOfDescribed(x interface{}) string {
 
 func (g *gen) containerCase() {
 	c := g.container(3)
+	if g.env.Rng.Intn(4) == 0 {
+		c = g.recordContainer()
+	}
 	vm := g.vm
 	var setErr error
 	if guard(func() { setErr = vm.Set("cont", c.val) }) || setErr != nil {
@@ -2336,4 +2352,258 @@ func (g *gen) callSeqCase(pinned int) {
 		}
 	}
 	g.env.Add(fmt.Sprintf("CCallSeq %s %s %s", Clist(steps), Clist(obsA), Clist(obsL)), "call sequence: "+strings.Join(txt, "; "), "call-sequence", true)
+}
+
+// ====================== one script object in its Go spellings ======================
+
+var spellingNames = []string{"otto.Value", "*otto.Object", "otto.Object (by value)"}
+var handlePathNames = []string{"Otto.Set", "Otto.ToValue + Set", "Object.Set", "argument of Otto.Call", "argument of Value.Call", "argument of Object.Call", "this of Value.Call", "this of Otto.Call"}
+
+const handlePrelude = `
+var orig, copy;
+function takeArg(a, b) { copy = a; return 0 }
+function takeThis() { copy = this; return 0 }
+holder.takeArg = takeArg;
+`
+
+func (g *gen) objHandleCase(spelling, path int) {
+	r := g.env.Rng
+	vm := g.vm
+	var n *jnode
+	for {
+		n = g.tree(r.Intn(3) + 1)
+		if n.t == "arr" || n.t == "obj" {
+			break
+		}
+	}
+	src := n.js()
+	o := RunJS(vm, "copy = undefined; orig = ("+src+")")
+	if o.Panic != nil || o.Err != nil {
+		g.env.Add("CCallErr 9 0 1", "object handle: could not evaluate "+src, "handle-failed", true)
+		return
+	}
+	v, _ := vm.Get("orig")
+	var h interface{} = v
+	switch spelling {
+	case 1:
+		h = v.Object()
+	case 2:
+		h = *v.Object()
+	}
+	var err error
+	p := guard(func() {
+		switch path {
+		case 0:
+			err = vm.Set("copy", h)
+		case 1:
+			var tv otto.Value
+			if tv, err = vm.ToValue(h); err == nil {
+				err = vm.Set("copy", tv)
+			}
+		case 2:
+			hv, _ := vm.Get("holder")
+			if err = hv.Object().Set("cp", h); err == nil {
+				_, err = vm.Run("copy = holder.cp")
+			}
+		case 3:
+			_, err = vm.Call("takeArg", nil, h, 1)
+		case 4:
+			f, _ := vm.Get("takeArg")
+			_, err = f.Call(otto.UndefinedValue(), h, 1)
+		case 5:
+			hv, _ := vm.Get("holder")
+			_, err = hv.Object().Call("takeArg", h, 1)
+		case 6:
+			var tv otto.Value
+			if tv, err = vm.ToValue(h); err == nil {
+				f, _ := vm.Get("takeThis")
+				_, err = f.Call(tv, 1, 2)
+			}
+		case 7:
+			_, err = vm.Call("takeThis", h, 1, 2)
+		}
+	})
+	ident, ty, exp, shown := "OPanic", "OPanic", "OPanic", "panic"
+	if !p && err != nil {
+		e := fmt.Sprintf("(OErr %d)", errClassOf(err))
+		ident, ty, exp, shown = e, e, e, err.Error()
+	}
+	if !p && err == nil {
+		ident = g.jsOb("copy === orig", projBool)
+		ty = g.jsOb("typeof copy", projTypeof)
+		exp, shown = g.exportOb(0, "copy")
+	}
+	g.env.Add(fmt.Sprintf("CObjHandle %d %d %s %s %s %s", spelling, path, n.coq(false), ident, ty, exp),
+		fmt.Sprintf("object handle: orig = %s given back as %s via %s: copy === orig %s, typeof copy %s, Export %s", src, spellingNames[spelling], handlePathNames[path], ident, ty, shown), "object-handle", true)
+}
+
+// ====================== failing calls must not consume stack depth ======================
+
+const depthPrelude = `
+function depth(n) { return n <= 0 ? 0 : 1 + depth(n - 1) }
+function boom() { throw new TypeError("t") }
+function boomDeep(n) { if (n <= 0) throw new RangeError("r"); return boomDeep(n - 1) }
+function ok(a, b) { return 1 }
+function stackLen() { return new Error().stack.split("\n").length }
+var holder = { boom: boom, ok: ok };
+`
+
+func measureDepth(limit int, try func(n int) bool) int64 {
+	for n := 1; n <= limit+8; n++ {
+		if !try(n) {
+			return int64(n - 1)
+		}
+	}
+	return int64(limit + 8)
+}
+
+func (g *gen) depthHistCase(pinned bool) {
+	r := g.env.Rng
+	limit := 12 + r.Intn(24)
+	mk := func() *otto.Otto {
+		vm := otto.New()
+		_, err := vm.Run(depthPrelude)
+		Must(err)
+		vm.SetStackDepthLimit(limit)
+		return vm
+	}
+	a, l := mk(), mk()
+	apiDepth := func(vm *otto.Otto) int64 {
+		return measureDepth(limit, func(n int) bool {
+			var err error
+			if guard(func() { _, err = vm.Call("depth", nil, n) }) {
+				return false
+			}
+			return err == nil
+		})
+	}
+	scriptDepth := func(vm *otto.Otto) int64 {
+		return measureDepth(limit, func(n int) bool { o := RunJS(vm, fmt.Sprintf("depth(%d)", n)); return o.Panic == nil && o.Err == nil })
+	}
+	stackAPI := func(vm *otto.Otto) int64 {
+		var v otto.Value
+		var err error
+		if guard(func() { v, err = vm.Call("stackLen", nil) }) || err != nil {
+			return -1
+		}
+		n, _ := v.ToInteger()
+		return n
+	}
+	stackScript := func(vm *otto.Otto) int64 {
+		o := RunJS(vm, "stackLen()")
+		if o.Panic != nil || o.Err != nil {
+			return -1
+		}
+		n, _ := o.Val.ToInteger()
+		return n
+	}
+	// baselines (the script measurements first: the API measurement itself ends in a failing call)
+	a0s, a0k, a0a := scriptDepth(a), stackAPI(a), apiDepth(a)
+	l0s, l0k := scriptDepth(l), stackScript(l)
+
+	type op struct {
+		call func() error
+		lang string
+		txt  string
+		cls  int
+	}
+	k := r.Intn(limit - 8)
+	cands := []op{
+		{func() error { _, e := a.Call("boom", nil); return e }, `boom()`, `Otto.Call("boom", nil)`, 6},
+		{func() error { _, e := a.Call("boom", nil, 1, 2); return e }, `boom(1, 2)`, `Otto.Call("boom", nil, 1, 2)`, 6},
+		{func() error { _, e := a.Call("boomDeep", nil, k); return e }, fmt.Sprintf(`boomDeep(%d)`, k), fmt.Sprintf(`Otto.Call("boomDeep", nil, %d)`, k), 3},
+		{func() error { _, e := a.Call("ok", nil, 1, 2); return e }, `ok(1, 2)`, `Otto.Call("ok", nil, 1, 2)`, 0},
+		{func() error { _, e := a.Call("boom", "T"); return e }, `boom.call("T")`, `Otto.Call("boom", "T")`, 6},
+		{func() error { f, _ := a.Get("boom"); _, e := f.Call(otto.UndefinedValue()); return e }, `boom.call(undefined)`, `Value.Call(boom)`, 6},
+		{func() error { h, _ := a.Get("holder"); _, e := h.Object().Call("boom", 1); return e }, `holder.boom(1)`, `Object.Call("boom", 1)`, 6},
+		{func() error { _, e := a.Call("nosuch", nil); return e }, `nosuch()`, `Otto.Call("nosuch", nil)`, 4},
+		{func() error { _, e := a.Call("new boom", nil); return e }, `new boom()`, `Otto.Call("new boom", nil)`, 6},
+		{func() error { _, e := a.Call("holder.boom", nil, 1); return e }, `holder.boom(1)`, `Otto.Call("holder.boom", nil, 1)`, 6},
+		{func() error { _, e := a.Call("depth", nil, limit+10); return e }, fmt.Sprintf(`depth(%d)`, limit+10), fmt.Sprintf(`Otto.Call("depth", nil, %d)`, limit+10), 3},
+	}
+	nops := r.Intn(10) + 3
+	var ops, txt []string
+	var api, lang []int64
+	for i := 0; i < nops; i++ {
+		c := Pick(r, cands)
+		if pinned {
+			c = cands[i%3]
+		}
+		var err error
+		ca := int64(9)
+		if !guard(func() { err = c.call() }) {
+			ca = errClassOf(err)
+		}
+		api = append(api, ca)
+		lang = append(lang, ErrClass(RunJS(l, c.lang)))
+		if c.cls == 0 {
+			ops = append(ops, "DOk")
+		} else {
+			ops = append(ops, fmt.Sprintf("DThrow %d", c.cls))
+		}
+		txt = append(txt, fmt.Sprintf("%s -> class %d / in-language %s -> class %d", c.txt, ca, c.lang, lang[len(lang)-1]))
+	}
+	a1s, a1k, a1a := scriptDepth(a), stackAPI(a), apiDepth(a)
+	l1s, l1k := scriptDepth(l), stackScript(l)
+	api = append(api, a1a-a0a, a1s-a0s, a1k-a0k)
+	lang = append(lang, l1s-l0s, l1s-l0s, l1k-l0k)
+	g.env.Add(fmt.Sprintf("CDepthHist %d %s %s %s", limit, Clist(ops), Czlist(api), Czlist(lang)),
+		fmt.Sprintf("depth history (SetStackDepthLimit %d): %s; deepest depth(n) through Otto.Call %d -> %d, through a script %d -> %d, Error().stack lines %d -> %d; in-language runtime: depth %d -> %d, stack lines %d -> %d",
+			limit, strings.Join(txt, "; "), a0a, a1a, a0s, a1s, a0k, a1k, l0s, l1s, l0k, l1k), "depth-history", true)
+}
+
+// ====================== struct types that print the same name ======================
+// three function-local types all called `record` (reflect's String() is "main.record" for each), with the
+// common fields at different positions
+
+func recordA(id int, label string, flag bool) (interface{}, interface{}) {
+	type record struct {
+		ID    int
+		Label string
+	}
+	return record{id, label}, &record{id, label}
+}
+
+func recordB(id int, label string, flag bool) (interface{}, interface{}) {
+	type record struct {
+		Label string
+		ID    int
+	}
+	return record{label, id}, &record{label, id}
+}
+
+func recordC(id int, label string, flag bool) (interface{}, interface{}) {
+	type record struct {
+		Flag  bool
+		ID    int
+		Label string
+	}
+	return record{flag, id, label}, &record{flag, id, label}
+}
+
+func (g *gen) recordContainer() gtnode {
+	r := g.env.Rng
+	id := g.containerScalar("int")
+	label := g.containerScalar("string")
+	flag := r.Intn(2) == 0
+	fID := "([73; 68], true, GTScalar " + id.coq() + ")"
+	fLabel := "([76; 97; 98; 101; 108], true, GTScalar " + label.coq() + ")"
+	fFlag := "([70; 108; 97; 103], true, GTScalar (GBool " + Cbool(flag) + "))"
+	var v, pv interface{}
+	var fields []string
+	switch r.Intn(3) {
+	case 0:
+		v, pv = recordA(int(id.i), label.s, flag)
+		fields = []string{fID, fLabel}
+	case 1:
+		v, pv = recordB(int(id.i), label.s, flag)
+		fields = []string{fID, fLabel} // the script walk reports keys in ascending order
+	default:
+		v, pv = recordC(int(id.i), label.s, flag)
+		fields = []string{fFlag, fID, fLabel}
+	}
+	if r.Intn(2) == 0 {
+		v = pv
+	}
+	return gtnode{"(GTStruct " + Clist(fields) + ")", v}
 }
